@@ -292,6 +292,30 @@ theorem oval_dpkg_exact (root : OvalRoot) (proto : ProtoFn) (defs : List OvalDef
     dpkgDefsToVulns root proto defs = some (defs.flatMap (dpkgDefSpec root proto)) :=
   dpkgDefsToVulns_eq root proto defs h
 
+/-- Every vulnerability of an OVAL definition carries the prototype's advisory
+    fields unchanged — identifier (title), description, links, severity string,
+    normalized severity, distribution (release) and repository — and the
+    criterion's package name. -/
+theorem oval_vuln_carries_proto (p : Vuln) (name m n : String) (st : Option OvalState) :
+    let v := rpmVuln p name st m
+    let w := dpkgVuln p n st
+    (v.name = p.name ∧ v.desc = p.desc ∧ v.links = p.links ∧ v.sev = p.sev ∧ v.nsev = p.nsev ∧ v.dist = p.dist ∧
+      v.repo = p.repo ∧ v.updater = p.updater ∧ v.pkgName = name ∧ v.pkgModule = m ∧ v.hasPkg = true) ∧
+    (w.name = p.name ∧ w.desc = p.desc ∧ w.links = p.links ∧ w.sev = p.sev ∧ w.nsev = p.nsev ∧ w.dist = p.dist ∧
+      w.repo = p.repo ∧ w.updater = p.updater ∧ w.pkgName = n ∧ w.hasPkg = true) := by
+  simp only [rpmVuln, dpkgVuln]
+  cases st with
+  | none => simp
+  | some s => obtain ⟨k, evr, arch⟩ := s; cases arch <;> simp
+
+/-- A state's EVR becomes the fixed version, verbatim. -/
+theorem oval_vuln_fixed_version (p : Vuln) (name m n : String) (st : OvalState) :
+    (rpmVuln p name (some st) m).fixed = st.evr.getD "" ∧ (dpkgVuln p n (some st)).fixed = st.evr.getD "" := by
+  simp only [rpmVuln, dpkgVuln]
+  obtain ⟨k, evr, arch⟩ := st
+  cases arch <;> simp
+
+
 /-! ## Part 4: OSV -/
 
 /-- SEMVER range, any number of intervals `introduced (fixed | last_affected)?`
@@ -410,5 +434,50 @@ theorem osv_severity_in_range (a : OsvAdvisory) (h : ∀ s ∈ a.severities, s.r
     | none => exact hcv _ _ h (by decide)
     | some s => exact normalize_lt _ _ _ _ s (by decide) (by decide)
   · exact hcv _ _ h (by decide)
+
+/-- SEMVER range of a whole affected entry: for well-shaped intervals `Insert`
+    returns exactly the vulnerabilities of the intervals' cells (those with
+    lower ≤ upper), each with the affected package. -/
+theorem osv_semver_range_exact (eco : OsvEcosystems) (proto : Vuln) (af : OsvAffected) (ivs : List Interval)
+    (h : WellShaped ivs) :
+    osvRange eco proto af ⟨"SEMVER", eventsOf ivs⟩ =
+      some ((ivs.map (semverCell af.hasVersions)).filterMap
+        (cellVuln eco { proto with hasPkg := true, pkgName := if eco.known af.ecosystem then af.name else af.purl,
+                                   pkgKind := if eco.known af.ecosystem then "binary" else "" } af.ecosystem)) := by
+  have hm : rangeMode eco "SEMVER" af.ecosystem = .semver := by simp [rangeMode]
+  simp only [osvRange, hm]
+  simp [osv_semver_cells af.hasVersions ivs h]
+
+/-- ECOSYSTEM range of a Maven / PyPI / RubyGems package, likewise. -/
+theorem osv_encoded_range_exact (eco : OsvEcosystems) (proto : Vuln) (af : OsvAffected) (ivs : List Interval)
+    (h : WellShaped ivs) (he : eco.encoded af.ecosystem = true) :
+    osvRange eco proto af ⟨"ECOSYSTEM", eventsOf ivs⟩ =
+      some ((ivs.map encCell).filterMap
+        (cellVuln eco { proto with hasPkg := true, pkgName := if eco.known af.ecosystem then af.name else af.purl,
+                                   pkgKind := if eco.known af.ecosystem then "binary" else "" } af.ecosystem)) := by
+  have hm : rangeMode eco "ECOSYSTEM" af.ecosystem = .encoded := by simp [rangeMode, he]
+  have hrun : ∀ hv, (runEvents .encoded hv {} (eventsOf ivs)).vers = (runEvents .encoded false {} (eventsOf ivs)).vers := by
+    intro hv
+    have : ∀ (evs : List OsvEvent) (s : EvState), runEvents .encoded hv s evs = runEvents .encoded false s evs := by
+      intro evs
+      induction evs with
+      | nil => intro s; rfl
+      | cons e rest ih => intro s; simp only [runEvents]; exact ih _
+    rw [this]
+  simp only [osvRange, hm]
+  simp [hrun, osv_encoded_ranges_exact ivs h]
+
+/-- The vulnerability of an encoded cell: no semver range, FixedInVersion is the
+    query string of the interval (`fixed=…&introduced=…`). -/
+theorem osv_encoded_vulnerability (eco : OsvEcosystems) (proto : Vuln) (ecosystem : String) (iv : Interval)
+    (he : eco.encoded ecosystem = true) (hne : (encCell iv).eco ≠ []) :
+    cellVuln eco proto ecosystem (encCell iv) =
+      some { proto with range := none, fixed := encodeValues (encCell iv).eco } := by
+  have hr : (encCell iv).hasRange = false := by
+    unfold encCell
+    cases iv.close with
+    | none => rfl
+    | some cl => cases cl <;> rfl
+  simp [cellVuln, hr, he, hne]
 
 end ClairModel.Props.C14
